@@ -277,23 +277,27 @@ def observe(sess, i, want):
 
 
 def diagnostics(sess, i, key, loadcap):
-    """modulestack / module cache / load counters against the spec state."""
+    """modulestack / module cache / load counters against the spec state.
+    Category loadonce: the top level of a module that is (or the spec says is)
+    in the cache ran more than once - what C11 forbids; the rest is drift."""
     it = sess.it[i]
     d = []
     base = it.base_environment
     stack = list(base.modulestack)
     if stack != list(key["k"][i]):
-        d.append(("stack", f"{i}: modulestack {stack} but spec {key['k'][i]}"))
+        d.append(("diag:stack", f"{i}: modulestack {stack} but spec {key['k'][i]}"))
     loaded = sorted(set(base.modules.keys()) - BUNDLED)
     wantm = key["m"][i] if key["m"][i] != [] else {}
     if loaded != sorted(wantm):
-        d.append(("cache", f"{i}: module cache {loaded} but spec {sorted(wantm)}"))
+        d.append(("diag:cache", f"{i}: module cache {loaded} but spec {sorted(wantm)}"))
     log = [x.value for x in base.map["loadlog"].value]
     wantl = key["l"][i] if key["l"][i] != [] else {}
     for m in sorted(set(log) | set(wantl)):
-        g = min(log.count(m), loadcap)
-        if g != wantl.get(m, 0):
-            d.append(("loads:" + m, f"{i}: top level of {m} ran {log.count(m)} times, spec {wantl.get(m, 0)}"))
+        n = log.count(m)
+        if n > 1 and (m in wantm or m in loaded):
+            d.append(("loadonce", f"{i}: the top level of module {m} ran {n} times"))
+        elif min(n, loadcap) != wantl.get(m, 0):
+            d.append(("diag:loads", f"{i}: top level of {m} ran {n} times, spec {wantl.get(m, 0)}"))
     return d
 
 
@@ -366,48 +370,62 @@ def init_id(g, interps):
 
 # ------------------------------------------------------------------ walker
 class Walker:
-    """Executes a plan tree on forked copies of live interpreters.
+    """Executes plan trees on forked copies of live interpreters.
 
-    plan(sid, depth, path, tag) -> list of (cmd, outcome, post sid, expand, tag')
+    plan(sid, depth, path, tag) -> list of
+        (cmd, outcome, post sid, expand, tag', inline)
     Every executed edge is compared with the spec; findings go to a shared
-    append-only file as JSON lines."""
+    append-only file as JSON lines.  A semaphore bounds the number of
+    processes that work at the same time."""
 
-    def __init__(self, g, interps, moddir, plan, loadcap, verdict_cats, outpath, nproc=NPROC):
-        self.g, self.interps, self.moddir = g, interps, moddir
+    def __init__(self, g, interps, plan, loadcap, outpath, nproc=None):
+        self.g, self.interps = g, interps
         self.plan, self.loadcap = plan, loadcap
-        self.verdict = verdict_cats
         self.outpath = outpath
-        self.sem = multiprocessing.Semaphore(nproc)
+        self.sem = multiprocessing.Semaphore(nproc or NPROC)
         self.fd = None
+        self.root = None
 
     def emit(self, rec):
+        rec["root"] = self.root
         os.write(self.fd, (json.dumps(rec) + "\n").encode())
 
-    def start(self, root_sid):
-        """Run the whole plan below root_sid; returns when every process ended."""
-        pid = os.fork()
-        if pid == 0:
-            code = 0
-            try:
-                signal.alarm(3000)
-                self.fd = os.open(self.outpath, os.O_WRONLY | os.O_APPEND | os.O_CREAT)
-                gc.disable()
-                sess = Sessions(self.interps, self.moddir)
-                self.sem.acquire()
-                n = self.check_state(sess, root_sid, [], None)
-                self.emit({"t": "n", "edges": 0, "evals": n})
-                self.children(sess, root_sid, 0, [], None, None)
-            except BaseException as e:  # noqa: BLE001
-                import traceback
+    def start(self, roots):
+        """roots: list of (root sid, module directory, initial tag).  Runs the
+        plan below every root; returns when every process has ended."""
+        self.fd = os.open(self.outpath, os.O_WRONLY | os.O_APPEND | os.O_CREAT)
+        gc.disable()
+        signal.alarm(6000)
+        pids = []
+        for k, (root_sid, moddir, tag) in enumerate(roots):
+            self.sem.acquire()
+            pid = os.fork()
+            if pid == 0:
+                code = 0
                 try:
-                    self.emit({"t": "crash", "what": traceback.format_exc()[-1500:]})
-                except Exception:  # noqa: BLE001
-                    pass
-                code = 3
-            os._exit(code)
+                    self.root = k
+                    sess = Sessions(self.interps, moddir)
+                    n = self.check_state(sess, root_sid, [], None)
+                    self.emit({"t": "n", "edges": 0, "evals": n})
+                    self.children(sess, root_sid, 0, [], None, tag)
+                except BaseException:  # noqa: BLE001
+                    import traceback
+                    try:
+                        self.emit({"t": "crash", "what": traceback.format_exc()[-1500:]})
+                    except Exception:  # noqa: BLE001
+                        pass
+                    code = 3
+                os._exit(code)
+            pids.append(pid)
+            while len(pids) > 64:
+                self.reap(pids.pop(0))
+        for pid in pids:
+            self.reap(pid)
+
+    def reap(self, pid):
         _, st = os.waitpid(pid, 0)
         if st != 0:
-            raise MachineryError(f"walker root exited with status {st}")
+            self.emit({"t": "crash", "what": f"walker root exited with status {st}"})
 
     def children(self, sess, sid, depth, path, prev, tag):
         """Called holding a token.  Plan items that are not `inline` get a
@@ -468,22 +486,9 @@ class Walker:
         g = self.g
         b = g.binding(sid, c)
         src = cmd_source(c, b)
-        label = c["i"] + ": " + src
         got, raw = sess.run(c["i"], src)
         path2 = path + [[c, o, q, b]]
-        findings = []
-        want = want_outcome(o)
-        if got != want:
-            if got[0] == want[0] == "err" and got[1] == "other":
-                findings.append(("drift:errmsg", f"{label}: error message not classified: {got[2]}"))
-            elif got[0] == want[0] == "val" and (got[1] != "int" and want[1] != "int"):
-                findings.append(("drift:retval", f"{label}: returned {got[1]}, spec {want[1]}"))
-            else:
-                findings.append(("outcome", f"{label}: outcome {got} but the spec predicts {want}"))
-        if prev is not None and prev[0] == c and prev[1] is not None:
-            if raw != prev[1]:
-                findings.append(("repeat", f"{label}: first attempt raised {prev[1]}, the repeat "
-                                           f"{raw if raw else 'succeeded'}"))
+        findings = compare_outcome(c["i"] + ": " + src, got, raw, want_outcome(o), c, prev)
         n = 1 + self.check_state(sess, q, path2, findings)
         self.emit({"t": "n", "edges": 1, "evals": n})
         return path2, (c, raw)
@@ -498,11 +503,30 @@ class Walker:
         for i in self.interps:
             findings += observe(sess, i, obs[i])
             n += 2 + len(obs[i])
-            findings += [("diag:" + k, w) for k, w in diagnostics(sess, i, g.key[sid], self.loadcap)]
+            findings += diagnostics(sess, i, g.key[sid], self.loadcap)
         for cat, what in findings:
             self.emit({"t": "f", "cat": cat, "what": what, "obs": obs,
                        "path": [[p[0], p[1], p[3]] for p in path]})
         return n
+
+
+def compare_outcome(label, got, raw, want, c, prev):
+    """Outcome of one interpret call against the spec, and - implementation
+    against implementation - a failing command repeated at once."""
+    findings = []
+    if got != want:
+        if got[0] != want[0]:
+            findings.append(("outcome-cls", f"{label}: outcome {got} but the spec predicts {want}"))
+        elif got[0] == "err" and got[1] == "other":
+            findings.append(("drift:errmsg", f"{label}: error message not classified: {got[2]}"))
+        elif got[0] == "val" and (got[1] != "int" and want[1] != "int"):
+            findings.append(("drift:retval", f"{label}: returned {got[1]}, spec {want[1]}"))
+        else:
+            findings.append(("outcome", f"{label}: outcome {got} but the spec predicts {want}"))
+    if prev is not None and prev[0] == c and prev[1] is not None and raw != prev[1]:
+        findings.append(("repeat", f"{label}: first attempt raised {tuple(prev[1])}, the repeat "
+                                   f"{raw if raw else 'succeeded'}"))
+    return findings
 
 
 def collect(outpath):
@@ -514,25 +538,31 @@ def collect(outpath):
 
 
 # ------------------------------------------------------------------- plans
-def cover_plan(g, root):
-    """Spanning tree (BFS: shortest paths) + every other edge as a leaf.  A
-    failing command that is not a tree edge is followed by every command of
-    its target state once (the spec says the state is unchanged; whatever the
-    failed call left behind in the implementation must not show)."""
-    tree = set()
-    seen = {root}
-    queue = [root]
-    while queue:
-        s = queue.pop(0)
-        for k, (c, o, q) in enumerate(g.out[s]):
-            if q not in seen:
-                seen.add(q)
-                tree.add((s, k))
-                queue.append(q)
+def cover_plan(g):
+    """Per root: spanning tree (BFS: shortest paths) + every other edge once.
+
+    Commands that leave the spec state unchanged (reads, most failing calls)
+    are executed one after the other in the process of their state, each
+    failing one repeated at once, twice round so that each follows each: what
+    a failed call leaves behind in the implementation must not show in any
+    later call.  A state-changing failing command off the tree is followed by
+    one such round."""
+    trees = {}
+
+    def tree_of(root):
+        tree = set()
+        seen = {root}
+        queue = [root]
+        while queue:
+            s = queue.pop(0)
+            for k, (c, o, q) in enumerate(g.out[s]):
+                if q not in seen:
+                    seen.add(q)
+                    tree.add((s, k))
+                    queue.append(q)
+        return tree
 
     def chain(sid, passes):
-        """every self-loop command of sid in this process, a failing one
-        repeated at once; `passes` times so that each follows each."""
         items = []
         for _ in range(passes):
             for (c, o, q) in g.out[sid]:
@@ -545,18 +575,22 @@ def cover_plan(g, root):
     def plan(sid, depth, path, tag):
         if tag == "chain-only":
             return chain(sid, 1)
+        if depth == 0:
+            trees[sid] = tree_of(sid)
+            tag = sid
+        tree = trees[tag]
         items = []
         for k, (c, o, q) in enumerate(g.out[sid]):
             if q == sid:
                 continue
             if (sid, k) in tree:
-                items.append((c, o, q, True, None, False))
+                items.append((c, o, q, True, tag, False))
             elif o["cls"] != "val":
                 items.append((c, o, q, True, "chain-only", False))
             else:
                 items.append((c, o, q, False, None, False))
         return items + chain(sid, 2)
-    return plan, len(seen)
+    return plan
 
 
 def depth_plan(g, maxlen):
@@ -579,8 +613,17 @@ def count_tree(g, root, maxlen):
     return cnt(root, 0)
 
 
-def walks_plan(g, root, rng, nwalks, maxlen):
-    """A trie of random walks."""
+def trie_plan(g):
+    """The initial tag of a root is a trie {edge index: subtrie}; a node with a
+    single child continues in the same process."""
+    def plan(sid, depth, path, tag):
+        ks = sorted(tag, key=int)
+        return [(g.out[sid][int(k)][0], g.out[sid][int(k)][1], g.out[sid][int(k)][2],
+                 bool(tag[k]), tag[k], len(ks) == 1) for k in ks]
+    return plan
+
+
+def random_walks(g, root, rng, nwalks, maxlen):
     trie = {}
     for _ in range(nwalks):
         node, s = trie, root
@@ -589,25 +632,16 @@ def walks_plan(g, root, rng, nwalks, maxlen):
             if not outs:
                 break
             k = rng.randrange(len(outs))
-            node = node.setdefault(k, {})
+            node = node.setdefault(str(k), {})
             s = outs[k][2]
-
-    def plan(sid, depth, path, tag):
-        node, s = trie, root
-        for p in path:
-            k = next(j for j, e in enumerate(g.out[s]) if e[0] == p[0])
-            node, s = node[k], g.out[s][k][2]
-        ks = sorted(node)
-        return [(g.out[sid][k][0], g.out[sid][k][1], g.out[sid][k][2], bool(node[k]), None, len(ks) == 1)
-                for k in ks]
-    return plan
+    return trie
 
 
 # --------------------------------------------------------------- reporting
-C10_VERDICT = {"outcome", "repeat", "names", "value"}
+C10_VERDICT = {"outcome", "outcome-cls", "repeat", "names", "value"}
 
 
-def report(run, recs, verdict_cats, prefix, fsdef, interps):
+def report(run, recs, verdict_cats, prefix, fsdefs, interps):
     """Turn walker records into violations / drift. Deterministic order."""
     edges = evals = 0
     finds = []
@@ -619,29 +653,35 @@ def report(run, recs, verdict_cats, prefix, fsdef, interps):
             raise MachineryError("walker process crashed: " + r["what"])
         else:
             finds.append(r)
-    finds.sort(key=lambda r: (len(r["path"]), json.dumps(r["path"], sort_keys=True), r["cat"], r["what"]))
+    finds.sort(key=lambda r: (len(r["path"]), r["root"], json.dumps(r["path"], sort_keys=True),
+                              r["cat"], r["what"]))
     for r in finds:
         hist = [cmd_label(p[0], p[2]) for p in r["path"]]
+        fsdef = fsdefs[r["root"]]
         if r["cat"] in verdict_cats:
             tail = " > ".join(hist[-2:])
-            key = f"{prefix}:{r['cat']}:{tail} :: {r['what']}"
-            run.violation(key, f"{r['cat']}: after [{' ; '.join(hist)}] {r['what']}",
+            fsk = "" if not fsdef["g"] else " fs=" + gen_label(fsdef["g"])
+            key = f"{prefix}:{r['cat']}:{tail} :: {r['what']}{fsk}"
+            run.violation(key, f"{r['cat']}: after [{' ; '.join(hist)}] {r['what']}{fsk}",
                           {"kind": "history", "fs": fsdef, "interps": interps,
                            "path": r["path"], "obs": r["obs"], "cat": r["cat"], "what": r["what"]})
         else:
-            run.drift(r["cat"], {"history": hist, "what": r["what"]})
+            run.drift(r["cat"], {"history": hist[-6:], "what": r["what"]})
     return edges, evals
+
+
+def gen_label(gen):
+    return ",".join(f"{e['m']}>{e['d']}:{e['form']}{'!' if e['poke'] else ''}" for e in gen)
 
 
 def check_pinned(run):
     """The deviation switch set to the pinned code must give TLC the C10
     counterexample - otherwise the invariants are vacuous."""
-    res = run_tlc("Session", "Session_pinned", workers=4, allow_violation=True, timeout=600)
+    res = run_tlc("Session", "Session_pinned", workers=4, allow_violation=True, timeout=900)
     run.add_tlc(res, "Session with UnwindOnFailure=FALSE (pinned code): counterexample expected")
     if res.ok or "Invariant FailIsIdempotent is violated" not in res.out:
         raise MachineryError("Session_pinned: TLC did not find the expected counterexample")
-    m = re.findall(r'ReqStart\(\[op \|-> "require", i \|-> "i1", n \|-> "", v \|-> 0, id \|-> "(\w+)"', res.out)
-    return m
+    return re.findall(r'ReqStart\(\[op \|-> "require", i \|-> "i1", n \|-> "", v \|-> 0, id \|-> "(\w+)"', res.out)
 
 
 def run_walk_job(job, d):
@@ -650,10 +690,9 @@ def run_walk_job(job, d):
     jpath = os.path.join(d, "job.json")
     with open(jpath, "w") as f:
         json.dump(job, f)
-    env = dict(os.environ)
-    p = subprocess.run([sys.executable, "-m", "harness.c10", jpath], env=env,
+    p = subprocess.run([sys.executable, "-m", "harness.c10", jpath], env=dict(os.environ),
                        cwd=os.path.dirname(os.path.dirname(os.path.abspath(__file__))),
-                       stdout=subprocess.PIPE, stderr=subprocess.STDOUT, text=True, timeout=6000)
+                       stdout=subprocess.PIPE, stderr=subprocess.STDOUT, text=True, timeout=7000)
     if p.returncode != 0:
         raise MachineryError("walker failed: " + p.stdout[-2000:])
 
@@ -662,45 +701,65 @@ def walk_main(jpath):
     with open(jpath) as f:
         job = json.load(f)
     g = Graph.undump(job["graph"])
-    rng = random.Random(job["seed"])
-    mode, params, root = job["mode"], job["params"], job["root"]
+    mode = job["mode"]
     if mode == "cover":
-        plan, _ = cover_plan(g, root)
+        plan = cover_plan(g)
     elif mode == "depth":
-        plan = depth_plan(g, params["maxlen"])
+        plan = depth_plan(g, job["maxlen"])
     else:
-        plan = walks_plan(g, root, rng, params["nwalks"], params["maxlen"])
-    w = Walker(g, job["interps"], job["moddir"], plan, job["loadcap"], None, job["out"])
-    w.start(root)
+        plan = trie_plan(g)
+    w = Walker(g, job["interps"], plan, job["loadcap"], job["out"])
+    w.start([tuple(r) for r in job["roots"]])
 
 
-def run_graph(run, cfg, interps, label, mode, rng, params):
-    """One TLC run of Session.tla + one walk. mode: cover | depth | walks."""
-    res = run_tlc("Session", cfg, coverage=True, timeout=3000)
+def tlc_graph(run, cfg, label, c11=False, **kw):
+    res = run_tlc("Session", cfg, coverage="simulate" not in kw, timeout=3000, **kw)
+    for a in ("GenEdge", "GenDone"):
+        if not c11:
+            res.coverage.pop(a, None)      # the generator is off in c10 mode
+    res.coverage.pop("NextE", None)
     run.add_tlc(res, label)
-    never = [a for a, n in res.coverage.items() if n == 0 and a.startswith(("Req", "Atomic", "Settle"))]
+    never = [a for a, n in res.coverage.items() if n == 0]
     if never:
         raise MachineryError(f"{cfg}: actions never taken: {never}")
     g = Graph().load(res)
     if not g.fsdefs:
         raise MachineryError("no FSDEF record")
-    fsdef = g.fsdefs[0]
-    root = init_id(g, interps)
+    return g, res
+
+
+def walk(run, g, interps, roots, fsdefs, mode, verdict, prefix, loadcap=1, maxlen=None):
+    """roots: list of (root sid, index into fsdefs, initial tag)."""
     d = tempfile.mkdtemp(prefix="c10-")
     try:
-        moddir = os.path.join(d, "modules")
-        os.mkdir(moddir)
-        materialise(fsdef, moddir)
-        outpath = os.path.join(d, "findings.ndjson")
-        job = {"graph": os.path.join(d, "graph.json"), "interps": interps, "moddir": moddir,
-               "root": root, "mode": mode, "params": params, "seed": rng.randrange(1 << 30),
-               "loadcap": params.get("loadcap", 1), "out": outpath}
+        dirs = {}
+        jroots = []
+        for (sid, fi, tag) in roots:
+            if fi not in dirs:
+                dirs[fi] = os.path.join(d, "fs%d" % fi)
+                os.mkdir(dirs[fi])
+                materialise(fsdefs[fi], dirs[fi])
+            jroots.append([sid, dirs[fi], tag])
+        job = {"graph": os.path.join(d, "graph.json"), "interps": interps, "roots": jroots,
+               "mode": mode, "maxlen": maxlen, "loadcap": loadcap,
+               "out": os.path.join(d, "findings.ndjson")}
         g.dump(job["graph"])
         run_walk_job(job, d)
-        recs = collect(outpath)
+        recs = collect(job["out"])
     finally:
         shutil.rmtree(d, ignore_errors=True)
-    edges, evals = report(run, recs, C10_VERDICT, "c10/" + cfg, fsdef, interps)
+    return report(run, recs, verdict, prefix, [fsdefs[fi] for (_, fi, _) in roots], interps)
+
+
+def run_graph(run, cfg, interps, label, mode, rng, params):
+    """One TLC run of Session.tla (c10 mode) + one walk. mode: cover | depth | walks."""
+    g, _ = tlc_graph(run, cfg, label)
+    root = init_id(g, interps)
+    tag = None
+    if mode == "walks":
+        tag = random_walks(g, root, rng, params["nwalks"], params["maxlen"])
+    edges, evals = walk(run, g, interps, [(root, 0, tag)], g.fsdefs[:1], mode, C10_VERDICT,
+                        "c10/" + cfg, maxlen=params.get("maxlen"))
     return g, edges, evals
 
 
@@ -712,54 +771,41 @@ def run(run):
     reqs = check_pinned(run)
     info["pinned_counterexample"] = "require %s twice" % (reqs[0] if reqs else "?")
 
-    g1, e, v = run_graph(run, "Session_one", ["i1"], "Session, one interpreter, core alphabet (repaired behaviour)",
-                         "cover", rng, {})
-    total_edges += e
-    total_evals += v
-    info["one_states"] = len(g1.key)
-    info["one_edges"] = e
-    g2, e, v = run_graph(run, "Session_two", ["i1", "i2"], "Session, two interleaved interpreters",
-                         "cover", rng, {})
-    total_edges += e
-    total_evals += v
-    info["two_states"] = len(g2.key)
-    info["two_edges"] = e
-    # sample: one transition and one state prediction
+    def go(cfg, interps, label, mode, name, **params):
+        nonlocal total_edges, total_evals
+        g, e, v = run_graph(run, cfg, interps, label, mode, rng, params)
+        total_edges += e
+        total_evals += v
+        info[name] = {"states": len(g.key), "graph_edges": sum(len(x) for x in g.out.values()),
+                      "commands_executed": e}
+        return g
+
+    g1 = go("Session_one", ["i1"], "Session, one interpreter, core alphabet (repaired behaviour)",
+            "cover", "one_cover")
+    go("Session_two", ["i1", "i2"], "Session, two interleaved interpreters", "cover", "two_cover")
     s0 = init_id(g1, ["i1"])
     run.sample({"EDGE": {"from": g1.key[s0], "cmd": g1.out[s0][0][0], "outcome": g1.out[s0][0][1]}})
     run.sample({"STATE.obs": g1.obs[g1.out[s0][-1][2]]})
-    nhist = 0
     if not quick:
-        _, e, v = run_graph(run, "Session_one", ["i1"], "Session, one interpreter: every history <= 5",
-                            "depth", rng, {"maxlen": 5})
-        total_edges += e
-        total_evals += v
-        info["histories_le5_nodes"] = e
-        nhist += e
-        _, e, v = run_graph(run, "Session_two", ["i1", "i2"], "Session, two interpreters: every history <= 4",
-                            "depth", rng, {"maxlen": 4})
-        total_edges += e
-        total_evals += v
-        info["two_histories_le4_nodes"] = e
-        nhist += e
-        _, e, v = run_graph(run, "Session_wide", ["i1"], "Session, one interpreter, wide alphabet: random histories <= 30",
-                            "walks", rng, {"nwalks": 4000, "maxlen": 30})
-        total_edges += e
-        total_evals += v
-        info["random_walk_edges_one"] = e
-        _, e, v = run_graph(run, "Session_two", ["i1", "i2"], "Session, two interpreters: random histories <= 30",
-                            "walks", rng, {"nwalks": 3000, "maxlen": 30})
-        total_edges += e
-        total_evals += v
-        info["random_walk_edges_two"] = e
+        go("Session_one", ["i1"], "Session, one interpreter: every history <= 5", "depth",
+           "one_histories_le5", maxlen=5)
+        go("Session_two", ["i1", "i2"], "Session, two interpreters: every history <= 4", "depth",
+           "two_histories_le4", maxlen=4)
+        go("Session_wide", ["i1"], "Session, one interpreter, wide alphabet: cover + random histories <= 30",
+           "cover", "wide_cover")
+        go("Session_wide", ["i1"], "Session, one interpreter, wide alphabet: random histories <= 30",
+           "walks", "wide_walks", nwalks=4000, maxlen=30)
+        go("Session_two", ["i1", "i2"], "Session, two interpreters: random histories <= 30",
+           "walks", "two_walks", nwalks=3000, maxlen=30)
     run.cov["traces_validated_against_impl"] = total_edges
     run.cov["evaluations"] = total_evals
     run.cov["distinct_nontrivial"] = total_edges
     run.cov["rule"] = ("one case per executed command-level transition of the Session state graph "
                        "(each compared on outcome and on the full predicted scope of every interpreter); "
-                       "quick: every edge of the graph once along a spanning tree; thorough adds every "
-                       "history up to the stated length and random walks; evaluations counts interpret "
-                       "calls and scope look-ups")
+                       "quick: every edge of the graph along a spanning tree, state-preserving commands "
+                       "chained twice round in their state, each failing one repeated at once; thorough "
+                       "adds every history up to the stated length and random walks; evaluations counts "
+                       "interpret calls and scope look-ups")
     run.cov["exhaustive"] = True
     run.cov["bounds"] = info
     run.assumptions += [
@@ -768,8 +814,8 @@ def run(run):
         "before the failure, a loop variable bound when the loop aborted and modules fully loaded before "
         "the failure stay",
         "same error = same exception class, error value and message",
-        "module-object member sets, modulestack, module cache and load counters are diagnostics (drift), "
-        "the verdict is on call outcomes and on the visible names and their values",
+        "module-object member sets, modulestack, module cache and load counters are diagnostics (drift) "
+        "here (C11 judges them); the verdict is on call outcomes and on the visible names and their values",
     ]
 
 
@@ -786,13 +832,7 @@ def replay_history(run, case, verdict_cats, prefix):
             got, raw = sess.run(c["i"], src)
             want = want_outcome(o)
             last = k == len(case["path"]) - 1
-            finds = []
-            if got != want and not (got[0] == want[0] == "val" and got[1] != "int" and want[1] != "int") \
-                    and not (got[0] == want[0] == "err" and got[1] == "other"):
-                finds.append(("outcome", f"{c['i']}: {src}: outcome {got} but the spec predicts {want}"))
-            if prev is not None and prev[0] == c and prev[1] is not None and raw != prev[1]:
-                finds.append(("repeat", f"{c['i']}: {src}: first attempt raised {prev[1]}, the repeat "
-                                        f"{raw if raw else 'succeeded'}"))
+            finds = compare_outcome(c["i"] + ": " + src, got, raw, want, c, prev)
             prev = (c, raw)
             if last and case.get("obs") is not None:
                 for i in interps:
